@@ -60,6 +60,10 @@ def mk_field(base, i):
         return ("bin", CHECKED[base[1]], base[2], base[3])
     if base[0] == "phi":
         return mk_phi([mk_field(a, i) for a in base[1]])
+    if base[0] == "mut" and len(base) > 3 and base[3] and isinstance(base[3][0], tuple) and base[3][0][0] == "f" and base[3][0][1] != i:
+        return mk_field(base[1], i)   # the call changed another field of the object
+    if base[0] == "update" and base[2] and isinstance(base[2][0], tuple) and base[2][0][0] == "f" and base[2][0][1] != i:
+        return mk_field(base[1], i)   # another field was assigned
     return ("field", base, i)
 
 
